@@ -11,6 +11,7 @@ CONSTANTS
   LimitN = 5
   HasKill = TRUE
   AllowKill = FALSE
+  AllowFds = FALSE
   AllowFlush = FALSE
   AtomicPoll = TRUE
 INVARIANTS PollOK CapacityOK TokensOK InterestsOK NoStall QuietNotReady ReleasableReady Refused503 KillWins KillReady Witnesses
